@@ -7,6 +7,13 @@
 //! come back as an integer). Oracle d: `decode(encode(decode(bytes))) == decode(bytes)`, where
 //! `decode(bytes)` must be the image that was built (else the case says nothing).
 //!
+//! (e) nesting grid: a levels of arrays / dictionaries around (or next to) a literal string with d
+//! balanced parenthesis levels, through Content::decode, Stream::decode_content and
+//! Document::get_and_decode_page_content. (f) history independence: the results for a fixed probe
+//! list are the same on a fresh thread and on a thread (plain, or a rayon worker) that earlier
+//! decoded hostile content (over-deep, truncated at every depth, unbalanced) 1, 2, 40 or 130 times.
+//! (g) long operands, long operand lists, long operators, long operation lists.
+//!
 //! Every unit (one operation or one short sequence) is checked alone (so it also ends at the end
 //! of input) and inside a batch of several hundred units (so it also has neighbours).
 use lopdf::content::{Content, Operation};
@@ -830,10 +837,748 @@ fn part_d(run: &Run) {
 }
 
 // ---------------------------------------------------------------------------------------------
+// parts e-g: deep nesting, history independence, long operands
+//
+// Deep operands are described by parameters (`Shape`), not by their tree: serde_json refuses to
+// read values nested deeper than 128 levels, so a replay file holds the parameters and the replay
+// rebuilds the operand from them.
+
+/// Arrays / dictionaries nested `a` levels: the accepted limit found by experiment on the
+/// unchanged tree (lopdf's parser rejects the 128th level; stated as an assumption in main).
+const NESTING_IN_DOMAIN: usize = 127;
+
+const WRAPS: [&str; 3] = ["array", "dict", "alt"];
+const ENTRIES: [&str; 3] = ["Content::decode", "Stream::decode_content", "Document::get_and_decode_page_content"];
+
+fn static_of(s: &str, menu: &[&'static str]) -> &'static str {
+    menu.iter().copied().find(|m| *m == s).unwrap_or(menu[0])
+}
+
+/// `a` levels of arrays / dictionaries (`wrap`: array = `[x]`, dict = `<</K x>>`, alt = array
+/// outermost, then alternating) around / next to a literal string with `d` balanced levels of
+/// parentheses. `pos`: inner = the string is the innermost element; before / after = the string is
+/// a sibling operand of the nest (whose innermost element is then the integer 7).
+#[derive(Clone, Debug, PartialEq)]
+struct Shape {
+    wrap: &'static str,
+    a: usize,
+    d: usize,
+    pos: &'static str,
+    hex: bool,
+}
+
+const POSITIONS: [&str; 3] = ["inner", "before", "after"];
+
+impl Shape {
+    fn to_json(&self) -> Value {
+        json!({"wrap": self.wrap, "a": self.a, "d": self.d, "pos": self.pos, "hex": self.hex})
+    }
+    fn from_json(v: &Value) -> Shape {
+        Shape {
+            wrap: static_of(v["wrap"].as_str().unwrap_or(""), &WRAPS),
+            a: v["a"].as_u64().unwrap_or(0) as usize,
+            d: v["d"].as_u64().unwrap_or(0) as usize,
+            pos: static_of(v["pos"].as_str().unwrap_or(""), &POSITIONS),
+            hex: v["hex"].as_bool().unwrap_or(false),
+        }
+    }
+    fn string(&self) -> Object {
+        let mut s = vec![b'('; self.d];
+        s.push(b'x');
+        s.extend(vec![b')'; self.d]);
+        Object::String(s, if self.hex { StringFormat::Hexadecimal } else { StringFormat::Literal })
+    }
+    fn nest(&self, leaf: Object) -> Object {
+        let mut o = leaf;
+        for level in (0..self.a).rev() {
+            let is_array = match self.wrap {
+                "array" => true,
+                "dict" => false,
+                _ => level % 2 == 0,
+            };
+            o = if is_array { Object::Array(vec![o]) } else { dict1(b"K", o) };
+        }
+        o
+    }
+    fn ops(&self) -> Vec<Operation> {
+        let operands = match self.pos {
+            "inner" => vec![self.nest(self.string())],
+            "before" => vec![self.string(), self.nest(Object::Integer(7))],
+            _ => vec![self.nest(Object::Integer(7)), self.string()],
+        };
+        vec![op("sc", operands)]
+    }
+    fn label(&self) -> String {
+        format!("{} x{} {} string with {} paren levels{}", self.wrap, self.a, self.pos, self.d, if self.hex { " (hex)" } else { "" })
+    }
+}
+
+/// Build-and-forget for very deep objects: dropping recurses once per level, like building.
+fn page_doc(bytes: &[u8]) -> (lopdf::Document, lopdf::ObjectId) {
+    let mut doc = lopdf::Document::with_version("1.5");
+    let cid = doc.add_object(Stream::new(Dictionary::new(), bytes.to_vec()));
+    let mut page = Dictionary::new();
+    page.set("Type", Object::Name(b"Page".to_vec()));
+    page.set("Contents", Object::Reference(cid));
+    let pid = doc.add_object(page);
+    (doc, pid)
+}
+
+fn decode_via(entry: &str, bytes: &[u8]) -> Result<Vec<Operation>, String> {
+    match entry {
+        "Stream::decode_content" => {
+            let st = Stream::new(Dictionary::new(), bytes.to_vec());
+            match util::guard(|| st.decode_content()) {
+                Ok(Ok(c)) => Ok(c.operations),
+                Ok(Err(e)) => Err(format!("decode_content error: {}", e)),
+                Err(p) => Err(format!("decode_content {}", p)),
+            }
+        }
+        "Document::get_and_decode_page_content" => {
+            let (doc, pid) = page_doc(bytes);
+            match util::guard(|| doc.get_and_decode_page_content(pid)) {
+                Ok(Ok(c)) => Ok(c.operations),
+                Ok(Err(e)) => Err(format!("get_and_decode_page_content error: {}", e)),
+                Err(p) => Err(format!("get_and_decode_page_content {}", p)),
+            }
+        }
+        _ => decode(bytes),
+    }
+}
+
+fn roundtrip_via(ops: &[Operation], entry: &str) -> Option<String> {
+    let bytes = match encode(ops) {
+        Ok(b) => b,
+        Err(e) => return Some(e),
+    };
+    match decode_via(entry, &bytes) {
+        Err(e) => Some(format!("{} (encoded, {} bytes: {})", e, bytes.len(), vharness::run::truncate(&esc(&bytes), 300))),
+        Ok(d) => cmp_ops(ops, &d).map(|(_, m)| format!("{} (encoded, {} bytes: {})", vharness::run::truncate(&m, 400), bytes.len(), vharness::run::truncate(&esc(&bytes), 300))),
+    }
+}
+
+/// Run `f` on a thread that has never run anything else (fresh thread-locals): a plain thread, or
+/// the single worker of a rayon pool built for this call.
+fn on_fresh<T: Send>(place: &str, f: impl FnOnce() -> T + Send) -> T {
+    if place == "rayon" {
+        let pool = rayon::ThreadPoolBuilder::new().num_threads(1).stack_size(16 << 20).build().expect("pool");
+        pool.install(f)
+    } else {
+        std::thread::scope(|s| {
+            std::thread::Builder::new().stack_size(16 << 20).spawn_scoped(s, f).expect("spawn").join().unwrap_or_else(|_| {
+                eprintln!("MACHINERY: helper thread panicked");
+                std::process::exit(3)
+            })
+        })
+    }
+}
+
+const PLACES: [&str; 2] = ["thread", "rayon"];
+
+const EXPECTED_SHAPE: &str = "decode(encode(ops)) == ops: arrays / dictionaries nested up to 127 levels and literal strings with any number of balanced parenthesis levels (the writer escapes what the reader would not accept) each round-trip alone, so they round-trip combined in one operand list";
+
+fn part_e(run: &Run) {
+    let a_list: Vec<usize> = if run.thorough { (0..=NESTING_IN_DOMAIN).collect() } else { vec![0, 1, 2, 27, 28, 60, 100, 126, 127] };
+    let d_list: Vec<usize> = if run.thorough { (0..=103).chain([150, 300]).collect() } else { vec![0, 1, 2, 50, 90, 99, 100, 101] };
+    let mut shapes = vec![];
+    for wrap in WRAPS {
+        for &a in &a_list {
+            for &d in &d_list {
+                for pos in POSITIONS {
+                    if a == 0 && (pos != "inner" || wrap != "array") {
+                        continue; // without a nest the three wraps and positions coincide
+                    }
+                    shapes.push(Shape { wrap, a, d, pos, hex: false });
+                }
+            }
+            // control: the same bytes as a hexadecimal string (no parentheses on the wire)
+            shapes.push(Shape { wrap, a, d: 100, pos: "inner", hex: true });
+        }
+    }
+    let failed = AtomicU64::new(0);
+    util::par_for(shapes.len(), |i| {
+        let sh = &shapes[i];
+        let ops = sh.ops();
+        for entry in ENTRIES {
+            run.eval(1);
+            if let Some(m) = roundtrip_via(&ops, entry) {
+                failed.fetch_add(1, Ordering::Relaxed);
+                run.fail(None, json!({"kind": "shape", "part": "nesting_grid", "shape": sh.to_json(), "entry": entry}), &format!("{}: {} -> {}: {}", sh.label(), "Content::encode", entry, m), EXPECTED_SHAPE);
+            }
+        }
+    });
+    run.nontrivial(shapes.len() as u64 * ENTRIES.len() as u64);
+    run.add("nesting_grid_shapes", shapes.len() as u64);
+    run.set("nesting_grid", json!({"a": a_list, "d": d_list, "wraps": WRAPS, "string_positions": POSITIONS, "entries": ENTRIES}));
+    run.sample(json!({"part": "e-grid", "shape": shapes[shapes.len() / 2].to_json(), "encoded": esc(&encode(&shapes[shapes.len() / 2].ops()).unwrap_or_default())}));
+    // every shape of the grid in one content stream, on a thread of its own
+    if failed.load(Ordering::Relaxed) == 0 {
+        for chunk in shapes.chunks(400) {
+            run.eval(1);
+            if let Some(m) = on_fresh("thread", || shapes_batch(chunk)) {
+                run.fail(None, json!({"kind": "shapes", "part": "nesting_grid_batch", "shapes": chunk.iter().map(|s| s.to_json()).collect::<Vec<_>>()}), &m, EXPECTED_SHAPE);
+            }
+        }
+    }
+    // measured, on a thread of its own: the deepest nesting that round-trips, per wrap
+    let measured = on_fresh("thread", || {
+        let mut out = serde_json::Map::new();
+        for wrap in WRAPS {
+            let ok = |a: usize| roundtrip_via(&Shape { wrap, a, d: 0, pos: "inner", hex: false }.ops(), ENTRIES[0]).is_none();
+            let first_bad = (0..=300).find(|&a| !ok(a));
+            let later_ok: Vec<usize> = first_bad.map(|f| (f..=300).chain([1000]).filter(|&a| ok(a)).collect()).unwrap_or_default();
+            out.insert(wrap.to_string(), json!({"deepest_round_tripping": first_bad.map(|f| f as i64 - 1), "deeper_levels_that_round_trip": later_ok}));
+        }
+        Value::Object(out)
+    });
+    run.eval(3 * 302);
+    run.set("nesting_limit_measured_not_demanded_beyond_127", measured);
+}
+
+fn shapes_batch(shapes: &[Shape]) -> Option<String> {
+    let all: Vec<Operation> = shapes.iter().flat_map(|s| s.ops()).collect();
+    let bytes = match encode(&all) {
+        Ok(b) => b,
+        Err(e) => return Some(e),
+    };
+    match decode(&bytes) {
+        Err(e) => Some(format!("{} shapes in one content stream ({} bytes): {}", shapes.len(), bytes.len(), e)),
+        Ok(d) => cmp_ops(&all, &d).map(|(i, m)| format!("{} shapes in one content stream: shape {} ({}): {}", shapes.len(), i, shapes.get(i).map(|s| s.label()).unwrap_or_default(), vharness::run::truncate(&m, 300))),
+    }
+}
+
+// ---------------------------------------------------------------------------------------------
+// part f: history independence
+
+/// One earlier use of the decoder. `kind` selects the generator, `wrap` the container kind,
+/// `n` / `m` its sizes. Everything is rebuilt from these four values.
+#[derive(Clone, Debug)]
+struct Prelude {
+    kind: &'static str,
+    wrap: &'static str,
+    n: usize,
+    m: usize,
+}
+
+const PRELUDE_KINDS: [&str; 17] = [
+    "nest", "open", "open_elem", "half_closed", "wrong_closer", "bad_token", "string_open", "string_open_in_array", "string_deep", "closers", "prefix",
+    "inline_open", "inline_nest", "inline_data", "load_open", "load_nest", "long",
+];
+
+/// A content stream that uses every token kind; its prefixes are "content truncated at every offset".
+const RICH: &[u8] = b"q [1 [2 <</K [3 (a(b\\)c) <AB>] /N /M>>] -1.5] TJ <</A <</B [/C (d)]>>>> DP BI /W 2 /H 1 /CS /G /BPC 8 /D [0 [1]] ID ab EI (t) ' Q";
+
+fn opener(wrap: &str, level: usize) -> &'static [u8] {
+    let is_array = match wrap {
+        "array" => true,
+        "dict" => false,
+        _ => level % 2 == 0,
+    };
+    if is_array {
+        b"["
+    } else {
+        b"<</K "
+    }
+}
+
+fn closer(wrap: &str, level: usize) -> &'static [u8] {
+    if opener(wrap, level) == b"[" {
+        b"]"
+    } else {
+        b">>"
+    }
+}
+
+fn openers(wrap: &str, n: usize) -> Vec<u8> {
+    (0..n).flat_map(|l| opener(wrap, l).to_vec()).collect()
+}
+
+/// The closers of levels n-1 down to n-count.
+fn closers(wrap: &str, n: usize, count: usize) -> Vec<u8> {
+    (0..count).flat_map(|i| closer(wrap, n - 1 - i).to_vec()).collect()
+}
+
+fn pdf_with_object(body: &[u8]) -> Vec<u8> {
+    let mut f = b"%PDF-1.4\n".to_vec();
+    let o1 = f.len();
+    f.extend_from_slice(b"1 0 obj\n<</Type /Catalog /Pages 2 0 R>>\nendobj\n");
+    let o2 = f.len();
+    f.extend_from_slice(b"2 0 obj\n<</Type /Pages /Kids [] /Count 0>>\nendobj\n");
+    let o3 = f.len();
+    f.extend_from_slice(b"3 0 obj\n");
+    f.extend_from_slice(body);
+    f.extend_from_slice(b"\nendobj\n");
+    let x = f.len();
+    f.extend_from_slice(format!("xref\n0 4\n0000000000 65535 f \n{:010} 00000 n \n{:010} 00000 n \n{:010} 00000 n \ntrailer\n<</Size 4 /Root 1 0 R>>\nstartxref\n{}\n%%EOF\n", o1, o2, o3, x).as_bytes());
+    f
+}
+
+impl Prelude {
+    fn to_json(&self) -> Value {
+        json!({"kind": self.kind, "wrap": self.wrap, "n": self.n, "m": self.m})
+    }
+    fn from_json(v: &Value) -> Prelude {
+        Prelude {
+            kind: static_of(v["kind"].as_str().unwrap_or(""), &PRELUDE_KINDS),
+            wrap: static_of(v["wrap"].as_str().unwrap_or(""), &WRAPS),
+            n: v["n"].as_u64().unwrap_or(0) as usize,
+            m: v["m"].as_u64().unwrap_or(0) as usize,
+        }
+    }
+    /// The bytes handed to the decoder (content stream, or a PDF file for the load_* kinds).
+    fn bytes(&self) -> Vec<u8> {
+        let (w, n) = (self.wrap, self.n);
+        let cat = |parts: &[&[u8]]| -> Vec<u8> { parts.concat() };
+        match self.kind {
+            // well-formed nest of n levels (over-deep when n > 127)
+            "nest" => cat(&[&openers(w, n), b"1", &closers(w, n, n), b" sc"]),
+            // ends right after the n-th opening delimiter
+            "open" => openers(w, n),
+            // ends inside a string inside the n-th level
+            "open_elem" => cat(&[&openers(w, n), b"1 (a"]),
+            // ends after m of the n closing delimiters
+            "half_closed" => cat(&[&openers(w, n), b"1", &closers(w, n, self.m.min(n))]),
+            // every level closed by the other kind's delimiter
+            "wrong_closer" => {
+                let wrong: Vec<u8> = (0..n).flat_map(|i| if closer(w, n - 1 - i) == b"]" { b">>".to_vec() } else { b"]".to_vec() }).collect();
+                cat(&[&openers(w, n), b"1", &wrong, b" sc"])
+            }
+            // a stray ')' where an element should be
+            "bad_token" => cat(&[&openers(w, n), b"1 ) ", &closers(w, n, n), b" sc"]),
+            // literal string never closed, n parenthesis levels open
+            "string_open" => cat(&[&vec![b'('; n], b"x"]),
+            "string_open_in_array" => cat(&[b"[1 ", &vec![b'('; n], b"x"]),
+            // n balanced raw parenthesis levels (the reader rejects more than 100)
+            "string_deep" => cat(&[&vec![b'('; n], b"x", &vec![b')'; n], b" Tj"]),
+            // closing delimiters without openers (m: 0 = ']', 1 = '>>', 2 = ')', 3 = mixed after one opener)
+            "closers" => match self.m {
+                0 => vec![b']'; n],
+                1 => b">>".repeat(n),
+                2 => vec![b')'; n],
+                _ => cat(&[b"[ ", &b">> ] ".repeat(n), b"<< ", &b"] >> ".repeat(n), b"( ", &b") ".repeat(n)]),
+            },
+            // the first n bytes of the rich content stream
+            "prefix" => RICH[..n.min(RICH.len())].to_vec(),
+            // array never closed inside an inline image dictionary
+            "inline_open" => cat(&[b"BI /W 1 /H 1 /CS /G /BPC 8 /D ", &openers(w, n), b" ID x EI"]),
+            "inline_nest" => cat(&[b"BI /W 1 /H 1 /CS /G /BPC 8 /D ", &openers(w, n), b"1", &closers(w, n, n), b" ID x EI"]),
+            // inline image data shorter than the dictionary says (n bytes of 243)
+            "inline_data" => cat(&[b"BI /W 9 /H 9 /CS /RGB /BPC 8 ID ", &vec![b'a'; n]]),
+            // a PDF file whose object 3 is a nest never closed / a well-formed nest of n levels
+            "load_open" => pdf_with_object(&openers(w, n)),
+            "load_nest" => pdf_with_object(&cat(&[&openers(w, n), b"1", &closers(w, n, n)])),
+            // harmless but big: n operations with m operands each and a string of n bytes
+            _ => {
+                let mut ops = vec![op("Tj", vec![Object::String((0..n).map(|i| (i % 251) as u8).collect(), StringFormat::Literal)])];
+                for i in 0..n.min(4000) {
+                    ops.push(op("sc", (0..self.m).map(|k| Object::Array(vec![Object::Integer((i + k) as i64)])).collect()));
+                }
+                encode(&ops).unwrap_or_default()
+            }
+        }
+    }
+    fn run(&self, bytes: &[u8]) {
+        if self.kind.starts_with("load_") {
+            let _ = util::load(bytes);
+        } else {
+            let _ = decode(bytes);
+        }
+    }
+}
+
+fn prelude_menu(thorough: bool) -> Vec<Prelude> {
+    let mut menu = vec![];
+    let k = 130usize;
+    let some: Vec<usize> = if thorough { (1..=k).collect() } else { vec![1, 2, 3, 5, 27, 64, 100, 126, 127, 128, 129, 130] };
+    for wrap in WRAPS {
+        for n in [1usize, 2, 126, 127, 128, 129, 200, 1000] {
+            menu.push(Prelude { kind: "nest", wrap, n, m: 0 });
+        }
+        for n in 1..=k {
+            menu.push(Prelude { kind: "open", wrap, n, m: 0 });
+        }
+        for &n in &some {
+            menu.push(Prelude { kind: "open_elem", wrap, n, m: 0 });
+            for m in [1usize, n / 2, n.saturating_sub(1)] {
+                if m >= 1 && m < n && !menu.iter().any(|p: &Prelude| p.kind == "half_closed" && p.wrap == wrap && p.n == n && p.m == m) {
+                    menu.push(Prelude { kind: "half_closed", wrap, n, m });
+                }
+            }
+            menu.push(Prelude { kind: "wrong_closer", wrap, n, m: 0 });
+            menu.push(Prelude { kind: "bad_token", wrap, n, m: 0 });
+            menu.push(Prelude { kind: "inline_open", wrap, n, m: 0 });
+        }
+        for n in [2usize, 127, 129, 200] {
+            menu.push(Prelude { kind: "inline_nest", wrap, n, m: 0 });
+            menu.push(Prelude { kind: "load_open", wrap, n, m: 0 });
+            menu.push(Prelude { kind: "load_nest", wrap, n, m: 0 });
+        }
+    }
+    for n in 1..=102 {
+        menu.push(Prelude { kind: "string_open", wrap: "array", n, m: 0 });
+    }
+    for n in [1usize, 2, 50, 99, 100, 101, 102] {
+        menu.push(Prelude { kind: "string_open_in_array", wrap: "array", n, m: 0 });
+    }
+    for n in [100usize, 101, 102, 300] {
+        menu.push(Prelude { kind: "string_deep", wrap: "array", n, m: 0 });
+    }
+    for m in 0..4 {
+        for n in [1usize, 2, 130] {
+            menu.push(Prelude { kind: "closers", wrap: "array", n, m });
+        }
+    }
+    for n in 0..=RICH.len() {
+        menu.push(Prelude { kind: "prefix", wrap: "array", n, m: 0 });
+    }
+    for n in [0usize, 1, 242] {
+        menu.push(Prelude { kind: "inline_data", wrap: "array", n, m: 0 });
+    }
+    menu.push(Prelude { kind: "long", wrap: "array", n: 70000, m: 1 });
+    menu.push(Prelude { kind: "long", wrap: "array", n: 300, m: 40 });
+    menu
+}
+
+/// What is decoded after the prelude: a shape (encoded on the spot) or raw bytes.
+#[derive(Clone, Debug)]
+enum Probe {
+    Shape(Shape),
+    Raw(Vec<u8>),
+}
+
+impl Probe {
+    fn to_json(&self) -> Value {
+        match self {
+            Probe::Shape(s) => json!({"shape": s.to_json()}),
+            Probe::Raw(b) => json!({"raw": hex(b)}),
+        }
+    }
+    fn from_json(v: &Value) -> Probe {
+        match v.get("shape") {
+            Some(s) => Probe::Shape(Shape::from_json(s)),
+            None => Probe::Raw(unhex(v["raw"].as_str().unwrap_or(""))),
+        }
+    }
+    fn label(&self) -> String {
+        match self {
+            Probe::Shape(s) => s.label(),
+            Probe::Raw(b) => format!("content `{}`", vharness::run::truncate(&esc(b), 80)),
+        }
+    }
+    /// The observable result: the encoded bytes (shapes) and what decoding them returns.
+    fn outcome(&self) -> String {
+        let bytes = match self {
+            Probe::Shape(s) => match encode(&s.ops()) {
+                Ok(b) => b,
+                Err(e) => return e,
+            },
+            Probe::Raw(b) => b.clone(),
+        };
+        let dec = match decode(&bytes) {
+            Err(e) => format!("Err({})", e),
+            Ok(ops) => format!(
+                "Ok, {} operations: {}",
+                ops.len(),
+                ops.iter()
+                    .map(|o| {
+                        let mut s = show_op(o);
+                        for a in &o.operands {
+                            if let Object::Stream(st) = a {
+                                s.push_str(&format!(" data={}", hex(&st.content)));
+                            }
+                        }
+                        s
+                    })
+                    .collect::<Vec<_>>()
+                    .join(" | ")
+            ),
+        };
+        format!("encoded {} bytes #{:016x}; decode -> {}", bytes.len(), vharness::run::fnv(&bytes), dec)
+    }
+}
+
+fn probe_list() -> Vec<Probe> {
+    let sh = |wrap: &'static str, a: usize, d: usize, pos: &'static str| Probe::Shape(Shape { wrap, a, d, pos, hex: false });
+    vec![
+        Probe::Raw(b"[(a)] TJ".to_vec()),
+        Probe::Raw(b"/T <</K (v)>> DP".to_vec()),
+        sh("array", 1, 0, "inner"),
+        sh("dict", 2, 1, "inner"),
+        sh("array", 126, 0, "inner"),
+        sh("array", 127, 0, "inner"),
+        sh("dict", 127, 0, "inner"),
+        sh("alt", 127, 0, "inner"),
+        sh("array", 27, 100, "inner"),
+        sh("array", 126, 1, "inner"),
+        sh("alt", 60, 99, "after"),
+        sh("array", 0, 100, "inner"),
+        sh("array", 0, 101, "inner"),
+        // just over the limit: rejected on a fresh thread, so rejected (the same way) always
+        sh("array", 128, 0, "inner"),
+        sh("dict", 129, 0, "inner"),
+        Probe::Raw(b"BI /W 2 /H 1 /CS /G /BPC 8 /D [0 [1]] ID ab EI".to_vec()),
+        Probe::Raw(b"q 1 0 0 1 5 5 cm (a(b)c) Tj [(x) -3 <41>] TJ Q".to_vec()),
+        // partly decodable content: what is returned for it must not depend on history either
+        Probe::Raw(b"q [1 [2".to_vec()),
+        Probe::Raw(b"q ((a) Tj".to_vec()),
+    ]
+}
+
+/// Probes that must round-trip on a fresh thread (nesting within the accepted limit).
+fn probe_in_domain(p: &Probe) -> bool {
+    matches!(p, Probe::Shape(s) if s.a <= NESTING_IN_DOMAIN)
+}
+
+fn run_history(prelude: Option<(&Prelude, usize)>, probes: &[Probe]) -> Vec<String> {
+    if let Some((p, reps)) = prelude {
+        let bytes = p.bytes();
+        for _ in 0..reps {
+            p.run(&bytes);
+        }
+    }
+    probes.iter().map(|p| p.outcome()).collect()
+}
+
+const EXPECTED_HISTORY: &str = "Content::encode / Content::decode are functions of their argument: the result for an operand list is the same on a thread that has done nothing else and on a thread that earlier decoded (and rejected or cut short) other content";
+
+fn history_case_json(place: &str, prelude: &Prelude, reps: usize, probes: &[Probe], index: usize) -> Value {
+    json!({"kind": "history", "part": "history", "place": place, "prelude": prelude.to_json(), "reps": reps,
+           "probes": probes[..=index].iter().map(|p| p.to_json()).collect::<Vec<_>>(), "probe_index": index,
+           "prelude_bytes_shown": vharness::run::truncate(&esc(&prelude.bytes()), 200)})
+}
+
+/// First probe whose outcome after the prelude differs from its outcome on a fresh thread.
+fn history_diff(fresh: &[String], got: &[String], probes: &[Probe]) -> Option<(usize, String)> {
+    for (i, (f, g)) in fresh.iter().zip(got.iter()).enumerate() {
+        if f != g {
+            return Some((i, format!("probe {} ({}): after the prelude: {}; on a fresh thread: {}", i, probes[i].label(), vharness::run::truncate(g, 260), vharness::run::truncate(f, 260))));
+        }
+    }
+    None
+}
+
+fn part_f(run: &Run) {
+    let probes = probe_list();
+    // reference outcomes: fresh plain thread, twice, and the fresh worker of a new rayon pool
+    let fresh = on_fresh("thread", || run_history(None, &probes));
+    let again = on_fresh("thread", || run_history(None, &probes));
+    let fresh_rayon = on_fresh("rayon", || run_history(None, &probes));
+    run.eval(3 * probes.len() as u64);
+    for (label, other) in [("a second fresh thread", &again), ("a fresh rayon worker", &fresh_rayon)] {
+        if let Some((i, _)) = history_diff(&fresh, other, &probes) {
+            run.fail(
+                None,
+                json!({"kind": "history", "part": "history_fresh", "place": if label.contains("rayon") { "rayon" } else { "thread" }, "prelude": Value::Null, "reps": 0,
+                       "probes": probes[..=i].iter().map(|p| p.to_json()).collect::<Vec<_>>(), "probe_index": i}),
+                &format!("probe {} ({}): on {}: {}; on a fresh thread: {}", i, probes[i].label(), label, vharness::run::truncate(&other[i], 260), vharness::run::truncate(&fresh[i], 260)),
+                EXPECTED_HISTORY,
+            );
+        }
+    }
+    // the in-domain probes round-trip on a fresh thread (else the comparison says nothing)
+    for (i, p) in probes.iter().enumerate() {
+        if let (true, Probe::Shape(s)) = (probe_in_domain(p), p) {
+            let s2 = s.clone();
+            run.eval(1);
+            if let Some(m) = on_fresh("thread", move || roundtrip_via(&s2.ops(), ENTRIES[0])) {
+                run.fail(None, json!({"kind": "shape", "part": "history_probe", "shape": s.to_json(), "entry": ENTRIES[0]}), &format!("probe {} ({}): {}", i, s.label(), m), EXPECTED_SHAPE);
+            }
+        }
+    }
+    let menu = prelude_menu(run.thorough);
+    let reps_list = [1usize, 2, 40, 130];
+    let mut cases: Vec<(usize, usize, &'static str)> = vec![];
+    for pi in 0..menu.len() {
+        for &reps in &reps_list {
+            // the big harmless preludes once or twice only
+            if menu[pi].kind == "long" && reps > 2 {
+                continue;
+            }
+            for place in PLACES {
+                cases.push((pi, reps, place));
+            }
+        }
+    }
+    let decodes = AtomicU64::new(0);
+    util::par_for(cases.len(), |c| {
+        let (pi, reps, place) = cases[c];
+        let got = on_fresh(place, || run_history(Some((&menu[pi], reps)), &probes));
+        decodes.fetch_add((reps + probes.len()) as u64, Ordering::Relaxed);
+        if let Some((i, m)) = history_diff(&fresh, &got, &probes) {
+            run.fail(
+                None,
+                history_case_json(place, &menu[pi], reps, &probes, i),
+                &format!("after {} x decode of prelude {} {} n={} m={} (`{}`) on the same {}: {}", reps, menu[pi].kind, menu[pi].wrap, menu[pi].n, menu[pi].m, vharness::run::truncate(&esc(&menu[pi].bytes()), 60), if place == "rayon" { "rayon worker" } else { "thread" }, m),
+                EXPECTED_HISTORY,
+            );
+        }
+    });
+    // two preludes in a row (order matters for a counter that is not restored): pairs over a small menu
+    let small: Vec<usize> = (0..menu.len())
+        .filter(|&i| {
+            let p = &menu[i];
+            (p.kind == "nest" && [127, 129].contains(&p.n)) || (p.kind == "open" && [1, 127, 128].contains(&p.n)) || (p.kind == "closers" && p.n == 2) || (p.kind == "string_open" && p.n == 100) || (p.kind == "inline_open" && p.n == 2 && p.wrap == "array")
+        })
+        .collect();
+    let mut pairs = vec![];
+    for &x in &small {
+        for &y in &small {
+            pairs.push((x, y));
+        }
+    }
+    util::par_for(pairs.len(), |c| {
+        let (x, y) = pairs[c];
+        let got = on_fresh("thread", || {
+            let (bx, by) = (menu[x].bytes(), menu[y].bytes());
+            menu[x].run(&bx);
+            menu[y].run(&by);
+            menu[x].run(&bx);
+            run_history(None, &probes)
+        });
+        decodes.fetch_add(3 + probes.len() as u64, Ordering::Relaxed);
+        if let Some((i, m)) = history_diff(&fresh, &got, &probes) {
+            run.fail(
+                None,
+                json!({"kind": "history2", "part": "history_pairs", "first": menu[x].to_json(), "second": menu[y].to_json(),
+                       "probes": probes[..=i].iter().map(|p| p.to_json()).collect::<Vec<_>>(), "probe_index": i}),
+                &format!("after decoding prelude {:?}, {:?}, and the first again on the same thread: {}", menu[x].to_json().to_string(), menu[y].to_json().to_string(), m),
+                EXPECTED_HISTORY,
+            );
+        }
+    });
+    run.eval(decodes.load(Ordering::Relaxed));
+    run.nontrivial(cases.len() as u64 + pairs.len() as u64);
+    run.add("history_preludes", menu.len() as u64);
+    run.add("history_cases", cases.len() as u64);
+    run.add("history_pair_cases", pairs.len() as u64);
+    run.add("history_probes", probes.len() as u64);
+    run.set("history", json!({"repetitions": reps_list, "places": PLACES, "prelude_kinds": PRELUDE_KINDS, "probes": probes.iter().map(|p| p.label()).collect::<Vec<_>>(),
+                              "truncation_depths": "1..130 for arrays, dictionaries and alternating nests; 1..102 parenthesis levels; every prefix of a content stream with every token kind"}));
+    let ex = &menu[menu.len() / 3];
+    run.sample(json!({"part": "f-history", "prelude": ex.to_json(), "prelude_bytes": vharness::run::truncate(&esc(&ex.bytes()), 120), "then": probes[5].label()}));
+}
+
+// ---------------------------------------------------------------------------------------------
+// part g: long operands, many operands, long operators, many operations
+
+const LENGTHS: [usize; 21] = [63, 64, 65, 127, 128, 129, 255, 256, 257, 511, 512, 513, 1023, 1024, 1025, 4095, 4096, 4097, 65535, 65536, 65537];
+
+/// One long case, rebuilt from (what, n, pattern).
+#[derive(Clone, Debug)]
+struct Long {
+    what: &'static str,
+    n: usize,
+    pat: usize,
+}
+
+const LONG_KINDS: [&str; 9] = ["literal", "hexstring", "name", "array", "dict", "operands", "operator", "operations", "mixed_operands"];
+
+impl Long {
+    fn to_json(&self) -> Value {
+        json!({"what": self.what, "n": self.n, "pat": self.pat})
+    }
+    fn from_json(v: &Value) -> Long {
+        Long { what: static_of(v["what"].as_str().unwrap_or(""), &LONG_KINDS), n: v["n"].as_u64().unwrap_or(0) as usize, pat: v["pat"].as_u64().unwrap_or(0) as usize }
+    }
+    fn pattern(&self) -> Vec<u8> {
+        let n = self.n;
+        match self.pat {
+            0 => vec![b'a'; n],
+            1 => (0..n).map(|i| (i % 256) as u8).collect(),
+            2 => (0..n).map(|i| b"a(b)c\\d\r\n"[i % 9]).collect(),
+            3 => vec![b'('; n],
+            4 => vec![b')'; n],
+            // balanced, 100 levels deep, repeated
+            _ => (0..n).map(|i| if (i / 100) % 2 == 0 { b'(' } else { b')' }).collect(),
+        }
+    }
+    fn ops(&self) -> Vec<Operation> {
+        let n = self.n;
+        let kinds = operand_kinds();
+        match self.what {
+            "literal" => vec![op("Tj", vec![Object::String(self.pattern(), StringFormat::Literal)])],
+            "hexstring" => vec![op("Tj", vec![Object::String(self.pattern(), StringFormat::Hexadecimal)])],
+            "name" => vec![op("gs", vec![Object::Name(self.pattern())])],
+            "array" => vec![op("TJ", vec![Object::Array((0..n).map(|i| kinds[i % kinds.len()].clone()).collect())])],
+            "dict" => {
+                let mut d = Dictionary::new();
+                for i in 0..n {
+                    d.set(format!("K{}", i).into_bytes(), kinds[i % kinds.len()].clone());
+                }
+                vec![op("DP", vec![Object::Name(b"T".to_vec()), Object::Dictionary(d)])]
+            }
+            "operands" => vec![op("scn", (0..n).map(|i| Object::Integer(i as i64 - 3)).collect())],
+            "mixed_operands" => vec![op("scn", (0..n).map(|i| kinds[(i + self.pat) % kinds.len()].clone()).collect())],
+            "operator" => {
+                let alphabet = b"aZ*'\"Rx";
+                let name: String = (0..n).map(|i| alphabet[(i + self.pat) % alphabet.len()] as char).collect();
+                vec![op(&name, vec![Object::Integer(1)])]
+            }
+            _ => (0..n).map(|i| op(["q", "Tj", "re", "'"][i % 4], (0..i % 4).map(|k| kinds[(i + k) % kinds.len()].clone()).collect())).collect(),
+        }
+    }
+}
+
+fn part_g(run: &Run) {
+    let mut cases: Vec<Long> = vec![];
+    for &n in &LENGTHS {
+        for pat in 0..6 {
+            // the writer looks up every byte in its escape list: keep the all-delimiter patterns short
+            if pat >= 2 && n > 4097 {
+                continue;
+            }
+            cases.push(Long { what: "literal", n, pat });
+        }
+        for pat in 0..2 {
+            cases.push(Long { what: "hexstring", n, pat });
+            if n <= 4097 {
+                cases.push(Long { what: "name", n, pat });
+            }
+        }
+        if n <= 4097 {
+            cases.push(Long { what: "array", n, pat: 0 });
+            cases.push(Long { what: "dict", n, pat: 0 });
+            cases.push(Long { what: "operands", n, pat: 0 });
+            cases.push(Long { what: "mixed_operands", n, pat: 0 });
+        }
+        if n <= 1025 {
+            cases.push(Long { what: "operator", n, pat: 0 });
+        }
+    }
+    for n in 0..=48 {
+        cases.push(Long { what: "operands", n, pat: 0 });
+        for pat in 0..3 {
+            cases.push(Long { what: "mixed_operands", n, pat });
+        }
+        if n >= 1 {
+            for pat in 0..3 {
+                cases.push(Long { what: "operator", n, pat });
+            }
+        }
+    }
+    for n in [1000usize, 10000, if run.thorough { 200000 } else { 20000 }] {
+        cases.push(Long { what: "operations", n, pat: 0 });
+    }
+    // operator spellings that begin with a keyword are outside the domain (see part b)
+    cases.retain(|c| c.what != "operator" || !keyword_prefixed(&c.ops()[0].operator));
+    util::par_for(cases.len(), |i| {
+        let c = &cases[i];
+        run.eval(1);
+        if let Some(m) = roundtrip(&c.ops()) {
+            run.fail(None, json!({"kind": "long", "part": "long", "case": c.to_json()}), &format!("{} n={} pattern {}: {}", c.what, c.n, c.pat, vharness::run::truncate(&m, 500)), EXPECTED_OPS);
+        }
+    });
+    run.nontrivial(cases.len() as u64);
+    run.add("long_cases", cases.len() as u64);
+    run.set("long_lengths", json!(LENGTHS));
+    run.sample(json!({"part": "g-long", "case": cases[cases.len() / 2].to_json(), "kinds": LONG_KINDS}));
+}
+
+// ---------------------------------------------------------------------------------------------
 
 fn main() {
     let run = Run::from_args("C14", "exploration");
-    util::quiet_panics();
+    if std::env::var("C14_LOUD").is_err() { util::quiet_panics(); }
     util::init_pool();
     util::pin_schedule();
     if let Mode::Replay(path) = run.mode.clone() {
@@ -844,20 +1589,30 @@ fn main() {
          256 bytes and sharp k-tuples as literal string / hex string / name operands (top level, array element, dictionary key and \
          value); every operator of the domain x every tuple of 0..3 operand kinds; all operand trees with <=3 nodes; all sequences \
          over the operation menu up to the tier's length; listed and stratified reals; inline images = geometry x data pattern x \
-         context. Each unit is run alone and again inside a batch. A unit is non-trivial when it has an operand, a \
+         context; the nesting grid (a levels of arrays / dictionaries / alternating x a literal string with d balanced parenthesis levels, \
+         inside, before or after the nest) through three decode entry points; long operands (strings, names, arrays, dictionaries, \
+         operand lists, operators, operation lists at block-size lengths); history cases = prelude x repetitions x kind of thread, \
+         each on a thread created for the case, compared with the outcomes on a thread that has done nothing else. Each unit is run alone and again inside a batch. A unit is non-trivial when it has an operand, a \
          non-alphanumeric operator byte, or >= 2 operations (two tokens adjacent); distinct by construction, counted once per unit",
     );
     run.assume("operands are direct objects other than Reference and Stream (not legal operands; the content parser has no rule for them); no NaN / infinite reals");
     run.assume("operators: spelled over the parser's documented alphabet (ASCII letters, '*', ''', '\"'), i.e. all ISO 32000 operators except d0 and d1; tokens beginning with null / true / false are excluded (lopdf's grammar reads the keyword as an operand and they correspond to no real operator); BI / ID / EI are inline-image syntax and occur only in part d");
     run.assume("inline images: unfiltered, colour-space names listed in image_data_stream (DeviceGray Gray DeviceRGB RGB DeviceRGBA RGBA DeviceCMYK CMYK), BPC in {1,2,4,8,16}, W 1..4, H 1..3, abbreviated or full keys, one white-space byte after ID and before EI");
+    run.assume("arrays and dictionaries nested up to 127 levels are in the domain (found by experiment on the unchanged tree: lopdf's parser accepts 127 and rejects the 128th level, MAX_NESTING = 128; deeper operands are measured and recorded, not demanded); literal strings with any number of parenthesis levels are in the domain (the writer escapes the levels beyond the reader's MAX_BRACKET = 100)");
+    run.assume("history independence: the preludes are arbitrary bytes handed to Content::decode (or Document::load_mem) whose result is ignored; only the later results for the fixed probe list are compared, with the results on a thread created for the purpose");
     part_a(&run);
     part_b(&run);
     part_c_trees(&run);
     part_c_sequences(&run);
     part_c_reals(&run);
     part_d(&run);
+    part_e(&run);
+    part_g(&run);
+    // last: the only part that feeds the decoder content it must reject
+    part_f(&run);
     // complete for the stated bounds; the data of long inline images is a pattern set, not all strings
-    run.set("exhaustive_parts", json!({"byte_pairs": true, "sharp_tuples": true, "operators_x_operand_kinds": true, "trees_le3": true, "sequences": true, "inline_geometries": true, "inline_data_longer_than_bound": "pattern set"}));
+    run.set("exhaustive_parts", json!({"byte_pairs": true, "sharp_tuples": true, "operators_x_operand_kinds": true, "trees_le3": true, "sequences": true, "inline_geometries": true, "inline_data_longer_than_bound": "pattern set",
+                                       "nesting_grid": true, "history_menu_x_repetitions_x_places": true, "long_lengths": "listed lengths"}));
     run.exhaustive(true);
     run.finish();
 }
@@ -889,6 +1644,60 @@ fn replay(run: &Run, path: &std::path::Path) -> ! {
                 Err(ImgFail::Reencode(_, m)) => Some(m),
             }
         }
+        Some("shape") => {
+            let sh = Shape::from_json(&case["shape"]);
+            let entry = static_of(case["entry"].as_str().unwrap_or(""), &ENTRIES);
+            println!("shape: {} via {}", sh.label(), entry);
+            if let Ok(b) = encode(&sh.ops()) {
+                println!("encoded: {}", esc(&b));
+            }
+            roundtrip_via(&sh.ops(), entry)
+        }
+        Some("shapes") => {
+            let shapes: Vec<Shape> = case["shapes"].as_array().map(|a| a.iter().map(Shape::from_json).collect()).unwrap_or_default();
+            on_fresh("thread", || shapes_batch(&shapes))
+        }
+        Some("long") => {
+            let c = Long::from_json(&case["case"]);
+            println!("long case: {} n={} pattern {}", c.what, c.n, c.pat);
+            roundtrip(&c.ops()).map(|m| vharness::run::truncate(&m, 800))
+        }
+        Some("history") | Some("history2") => {
+            let probes: Vec<Probe> = case["probes"].as_array().map(|a| a.iter().map(Probe::from_json).collect()).unwrap_or_default();
+            let place = static_of(case["place"].as_str().unwrap_or(""), &PLACES);
+            // reference: a thread that has done nothing else; then a new thread (of the recorded
+            // kind) that first decodes the prelude(s)
+            let fresh = on_fresh("thread", || run_history(None, &probes));
+            let run_case = || {
+                if case["kind"] == "history2" {
+                    let (x, y) = (Prelude::from_json(&case["first"]), Prelude::from_json(&case["second"]));
+                    on_fresh("thread", || {
+                        let (bx, by) = (x.bytes(), y.bytes());
+                        x.run(&bx);
+                        y.run(&by);
+                        x.run(&bx);
+                        run_history(None, &probes)
+                    })
+                } else if case["prelude"].is_null() {
+                    on_fresh(place, || run_history(None, &probes))
+                } else {
+                    let p = Prelude::from_json(&case["prelude"]);
+                    let reps = case["reps"].as_u64().unwrap_or(1) as usize;
+                    println!("prelude ({} x, on a new {}): {}", reps, place, vharness::run::truncate(&esc(&p.bytes()), 300));
+                    on_fresh(place, || run_history(Some((&p, reps)), &probes))
+                }
+            };
+            let a = run_case();
+            let b = run_case();
+            if a != b {
+                eprintln!("MACHINERY: replay not deterministic");
+                std::process::exit(3);
+            }
+            for (i, p) in probes.iter().enumerate() {
+                println!("probe {}: {}", i, p.label());
+            }
+            history_diff(&fresh, &a, &probes).map(|x| x.1)
+        }
         _ => {
             eprintln!("MACHINERY: unknown replay kind");
             std::process::exit(3);
@@ -896,7 +1705,7 @@ fn replay(run: &Run, path: &std::path::Path) -> ! {
     };
     match &res {
         Some(m) => println!("observed: {}", m),
-        None => println!("observed: round trip equal"),
+        None => println!("observed: round trip equal / same result as on a fresh thread"),
     }
     run.finish_replay(res.is_some())
 }
